@@ -181,6 +181,10 @@ def run_harness(cdir, h, extra_args=(), playback=False):
         res['status'] = 'verified'
     else:
         res['status'] = 'failed'
+        if not re.search(r'Failed Checks: ', out):
+            # CBMC reported FAILED without a single failed property: solver / memory error (all checks `ERROR`)
+            res['status'] = 'undecided'
+            res['reason'] = 'Kani reported FAILED without a failed property (solver or memory error under ulimit %d GB)' % h.get('mem_gb', 16)
     # failed checks
     res['failed_checks'] = re.findall(r'Failed Checks: (.*)', out)
     res['unwind_fail'] = any('unwinding assertion' in f for f in res['failed_checks'])
